@@ -37,11 +37,9 @@ def free_names(fn_node):
     return out
 
 
-def run(ctx, rep):
+def fill_order(ctx, rep, rule, extra=""):
     ix, T = ctx.ix, ctx.typer
-
-    # ------------------------------------------------------------ C18.1
-    rep.rule("C18.1", "positional and keyword calls fill the same ordered dict, keyed by parameter name in definition order", floor=2)
+    rep.rule(rule, "positional and keyword calls fill the same ordered dict, keyed by parameter name in definition order" + extra, floor=2)
     call = ix.find_method(ABSTRACT_GATE, "call")
     if call is None:
         raise AnalysisError("C18.1: AbstractGate.call vanished")
@@ -62,13 +60,37 @@ def run(ctx, rep):
         reordered = any(isinstance(n, ast.Call) and isinstance(n.func, ast.Name) and n.func.id in ("sorted", "reversed", "set") for r in roots for n in ast.walk(r))
         if from_params and by_name and not reordered:
             n_ok += 1
-            rep.ok("C18.1", cons, "key is the name of a parameter taken from self.parameters in definition order", loc)
+            rep.ok(rule, cons, "key is the name of a parameter taken from self.parameters in definition order", loc)
         elif reordered:
-            rep.violation("C18.1", cons, "the argument dict is filled in an order other than the definition order of the parameters: positional and keyword calls build different statements", loc)
+            rep.violation(rule, cons, "the argument dict is filled in an order other than the definition order of the parameters: positional and keyword calls build different statements", loc)
         else:
-            rep.violation("C18.1", cons, "the argument dict is not keyed by parameter names taken from self.parameters", loc)
-    if len(stores) < 2:
-        rep.undecided("C18.1", construct_of(call, "fills"), "expected one store per calling convention (positional, keyword)", call.loc())
+            rep.violation(rule, cons, "the argument dict is not keyed by parameter names taken from self.parameters", loc)
+    # bulk fills: params.update(X) keeps X's order
+    n_bulk = 0
+    for n in walk_no_nested(call.node):
+        if isinstance(n, ast.Call) and isinstance(n.func, ast.Attribute) and n.func.attr == "update" and n.args:
+            x = n.args[0]
+            cons = construct_of(call, f"fills:{ast.unparse(n)[:40]}")
+            loc = f"{call.path}:{n.lineno}"
+            n_bulk += 1
+            kw = call.node.args.kwarg.arg if call.node.args.kwarg else "kwargs"
+            if isinstance(x, ast.Name) and x.id == kw:
+                rep.violation(rule, cons, f"`{ast.unparse(n)}` fills the argument dict in the caller's keyword order, not the definition order: `g(b=.., a=..)` and `g(a=.., b=..)` build statements whose arguments are printed and bound in different orders", loc)
+            elif isinstance(x, ast.DictComp) and any(isinstance(m, ast.Attribute) and m.attr == "parameters" for g in x.generators for m in ast.walk(g.iter)):
+                n_ok += 1
+                rep.ok(rule, cons, "bulk fill iterates self.parameters (definition order)", loc)
+            else:
+                rep.undecided(rule, cons, "order of this bulk fill is not recognised", loc)
+    if len(stores) + n_bulk < 2:
+        rep.undecided(rule, construct_of(call, "fills"), "expected one store per calling convention (positional, keyword)", call.loc())
+    return call, fl
+
+
+def run(ctx, rep):
+    ix, T = ctx.ix, ctx.typer
+
+    # ------------------------------------------------------------ C18.1
+    call, fl = fill_order(ctx, rep, "C18.1")
     # mixing is rejected
     cons = construct_of(call, "mixing-rejected")
     mix = any(isinstance(st, ast.If) and {"args", "kwargs"} <= names_in(st.test) and any(isinstance(s, ast.Raise) for s in st.body) for st in iter_stmts(call.body))
@@ -79,6 +101,24 @@ def run(ctx, rep):
     # unknown keyword names are rejected
     cons = construct_of(call, "unknown-keywords-rejected")
     leftover = any(isinstance(st, ast.If) and isinstance(st.test, ast.Name) and st.test.id == "kwargs" and any(isinstance(s, ast.Raise) for s in st.body) for st in iter_stmts(call.body))
+    if not leftover:
+        # other spellings: a raising test that depends on an iteration over kwargs (names not among the parameters) or on its length
+        def iterates_kwargs(e):
+            for m in ast.walk(e):
+                if isinstance(m, ast.comprehension) and isinstance(m.iter, ast.Name) and m.iter.id == "kwargs":
+                    return True
+                if isinstance(m, ast.Call) and isinstance(m.func, ast.Name) and m.func.id in ("set", "len", "list", "sorted") and m.args and isinstance(m.args[0], ast.Name) and m.args[0].id == "kwargs":
+                    return True
+                if isinstance(m, ast.BinOp) and isinstance(m.op, ast.Sub) and any(isinstance(k, ast.Name) and k.id == "kwargs" for k in ast.walk(m)):
+                    return True
+            return False
+        for st in iter_stmts(call.body):
+            if isinstance(st, ast.If) and any(isinstance(s_, ast.Raise) for s_ in st.body):
+                ids, roots = fl.depends(st.test)
+                if iterates_kwargs(st.test) or any(iterates_kwargs(r) for r in roots):
+                    leftover = True
+            if isinstance(st, ast.For) and isinstance(st.iter, ast.Name) and st.iter.id == "kwargs" and any(isinstance(s_, ast.Raise) for s_ in iter_stmts(st.body)):
+                leftover = True
     if leftover:
         rep.ok("C18.1", cons, "keyword arguments that name no parameter raise JaqalError", call.loc())
     else:
